@@ -38,6 +38,40 @@ def main() -> int:
     from vlib.framework import Ctx
 
     ctx = Ctx(a.prop, a.tier, seed)
+    # overall watchdog: a check that hangs is neither a pass nor a violation (exit 2)
+    import signal
+
+    limit = int(os.environ.get("VERIF_TIME_LIMIT", "1500" if a.tier == "quick" else "7200"))
+
+    def _descendants(root):
+        kids = {}
+        for d in os.listdir("/proc"):
+            if d.isdigit():
+                try:
+                    with open(f"/proc/{d}/stat") as f:
+                        parts = f.read().rsplit(")", 1)[1].split()
+                    kids.setdefault(int(parts[1]), []).append(int(d))
+                except OSError:
+                    pass
+        out, todo = [], [root]
+        while todo:
+            for k in kids.get(todo.pop(), []):
+                out.append(k)
+                todo.append(k)
+        return out
+
+    def _too_long(signum, frame):
+        print(f"[{a.prop}] TIMEOUT after {limit}s (exit 2)")
+        sys.stdout.flush()
+        for pid in _descendants(os.getpid()):
+            try:
+                os.kill(pid, signal.SIGKILL)
+            except OSError:
+                pass
+        os._exit(2)
+
+    signal.signal(signal.SIGALRM, _too_long)
+    signal.alarm(limit)
     try:
         mod = importlib.import_module(f"harness.{a.prop.lower()}")
         if a.replay:
